@@ -113,8 +113,53 @@ class Extrema(FragmentTask):
         ctx.oblige("post.maximum-is-attained", z3.Or(*[z3.Exists([q], z3.And(q >= 0, q < NB[lv], to_z3(mx) == MAXS(lv, q))) for lv in levels]), "P")
 
 
+class Formatting(FragmentTask):
+    """find_min_max from the choice of the extrema to the table entry of the field: the entry holds the minimum and the maximum
+    rendered with three significant digits ('{:.3}'), each preceded by one blank exactly when it is not negative, and the units."""
+    prop = "C18"
+    reach = "S"
+    qual = ME + "find_min_max"
+    first = staticmethod(Extrema.first)
+    last = staticmethod(lambda s: s.__class__.__name__ == "Assign" and "min_and_max[" in __import__("ast").unparse(s.targets[0]))
+
+    def __init__(self):
+        self.name = "find_min_max.three-significant-digits"
+
+    def setup(self, ex):
+        r = Extrema(2, False).setup(ex)
+        r["frame"]["min_and_max"] = {}
+        r["frame"]["units"] = "[K]"
+        return r
+
+    def post(self, ex, inp, out):
+        from pyvc.strings import SStr, FloatAtom
+        ctx = ex.ctx
+        ctx.oblige("raises-nothing", out.kind == "ret", "P", note=str(out.exc) if out.kind != "ret" else "")
+        if out.kind != "ret":
+            return
+        ent = out.value["min_and_max"].get("the_field")
+        ok = isinstance(ent, tuple) and len(ent) == 3 and all(isinstance(x, SStr) for x in ent[:2])
+        ctx.structure("post.entry-is-(min-text,max-text,units)", ok)
+        if not ok:
+            return
+        ctx.oblige("post.units-kept", ent[2] == "[K]", "P")
+        MINS, MAXS, NB = inp["MINS"], inp["MAXS"], inp["NB"]
+        b = ctx.fresh("b")
+        for label, txt, bound in (("minimum", ent[0], lambda v, lv: v <= MINS(lv, b)), ("maximum", ent[1], lambda v, lv: v >= MAXS(lv, b))):
+            segs = txt.segs
+            fa = segs[-1]
+            good = isinstance(fa, FloatAtom) and fa.fmt == ".3" and len(segs) in (1, 2) and (len(segs) == 1 or segs[0] == " ")
+            ctx.oblige(f"post.{label}-rendered-with-three-significant-digits", good, "P", note=str(segs))
+            if not good:
+                continue
+            v = to_real(fa.term)
+            ctx.oblige(f"post.{label}-has-a-leading-blank-iff-not-negative", (v >= 0) if len(segs) == 2 else (v < 0), "P")
+            for lv in range(2):
+                ctx.oblige(f"post.rendered-{label}-bounds-every-box-of-level-{lv}", z3.Implies(z3.And(b >= 0, b < NB[lv]), bound(v, lv)), "P")
+
+
 def tasks(tier):
-    out = [TableCoverage(), Extrema(2, False), Extrema(2, True), Extrema(2, True, True)]
+    out = [Formatting(), TableCoverage(), Extrema(2, False), Extrema(2, True), Extrema(2, True, True)]
     if tier == "thorough":
         out += [Extrema(1, False), Extrema(3, False), Extrema(3, True)]
     return out
@@ -124,6 +169,9 @@ def canaries(tier):
     return [("min/max table: padding test back to 'not len//2'",
              [("amr_kitchen/menu/menu.py", "if len(min_max_data) % 2:", "if not len(min_max_data)//2:")],
              ["show_min_max.two-column-coverage"]),
+            ("min/max: two significant digits",
+             [("amr_kitchen/menu/menu.py", 'minimum = str("{:.3}".format(minimum))', 'minimum = str("{:.2}".format(minimum))')],
+             ["find_min_max.three-significant-digits"]),
             ("min/max: the finest level left out of the absolute extrema",
              [("amr_kitchen/menu/menu.py", "minimum = np.min([self.cells[lv][\"mins\"][field].min() for lv in range(self.limit_level + 1)])",
                "minimum = np.min([self.cells[lv][\"mins\"][field].min() for lv in range(self.limit_level)])")],
